@@ -11533,7 +11533,7 @@ tmcg_openpgp_byte_t CallasDonnerhackeFinneyShawThayerRFC4880::PacketDecodeTag1
 		mpis.erase(mpis.begin(), mpis.begin()+mlen);
 		// a one-octet size, followed by a symmetric key encoded
 		// using the method described in Section 8 [RFC 6637]
-		if (mpis.size() <= 2)
+		if (mpis.size() < 2)
 			return 0; // error: result of key wrapping too short
 		out.rkwlen = mpis[0];
 		if ((out.rkwlen == 0) || (out.rkwlen == 255))
